@@ -327,6 +327,29 @@ func execCase(r *core.Run, c *Case) {
 			}
 			r.Count("invalid-after-valid", 1)
 		}
+		if len(broken) == len(full) {
+			// the caller rearranges the certificates inside the very slice it had
+			// passed before (same backing array, same length) and asks the same
+			// validator again: what the validator is given now is what counts
+			copy(full, broken)
+			env.Chain = full
+			out := env.Run(context.Background())
+			r.Eval(1)
+			if out.Stuck {
+				r.Inconclusive("a call did not return within the watchdog (C09 / C17 decide that): " + c.Sc.Desc())
+				return
+			}
+			if out.Panic == nil {
+				msgs := mon.Shape(full, out.Results, out.Err, false, c.Sc.Entry == "ocsp", sims.IsInvalidChain(out.Err))
+				if len(msgs) > 0 {
+					r.Violation("shape:"+shapeSig(msgs)+":"+c.Sc.Entry+":after-valid-in-place:"+c.Invalid, fmt.Sprintf("%s, written into the very slice that had just been validated, same validator (%s): %s", c.Invalid, c.Sc.Desc(), strings.Join(msgs, "; ")), c)
+					return
+				}
+				r.Count("invalid-after-valid-in-place", 1)
+			} else {
+				r.Count("panicked", 1)
+			}
+		}
 		r.Nontrivial(fmt.Sprintf("after-valid %s %s", c.Invalid, c.Sc.Desc()))
 	case "cancel":
 		env := c.Sc.Prepare()
